@@ -281,8 +281,10 @@ def run_path_safe(sc):
 # byte-offset fault enumeration
 # ---------------------------------------------------------------------------------------------
 def _offset_trial(job):
-    """job = {"mode", "oname", "what": "cache"|"lib", "offsets": [...]} -> list of (offset, records)"""
-    a = mc.api()
+    """job = {"mode", "oname", "what": "cache"|"lib", "offsets": [...]} -> list of (offset, records)
+    cache: the cache file of (oname, mode) cut to n bytes is what the next transfer_model finds.
+    lib:   a valid codegen cache for oname exists; a call with OTHER options recompiles and its first link step
+           dies after n bytes of output; then transfer_model(oname) is called again."""
     mode, oname = job["mode"], job["oname"]
     sb = mc.Sandbox(INIT_FILES)
     scratch = os.environ.get("VF_MC_SCRATCH")
@@ -298,15 +300,6 @@ def _offset_trial(job):
         with open(sb.cache_file, "rb") as f:
             good = f.read()
         ref = fresh_projection(sb, oname, mode)
-        target = sb.cache_file
-        if job["what"] == "lib":
-            import pickle
-            with open(sb.cache_file, "rb") as f:
-                target = pickle.load(f)["dae_residual"]
-            if not isinstance(target, str):
-                raise MachineryError("codegen cache file does not name a library")
-            with open(target, "rb") as f:
-                good_lib = f.read()
         snap = {}
         for fn in os.listdir(sb.model_folder):
             fp = os.path.join(sb.model_folder, fn)
@@ -326,41 +319,57 @@ def _offset_trial(job):
                 os.chmod(fp, mode_)
             sb.cache_stamp = None
             sb.stamp_cache()
-        data = good if job["what"] == "cache" else good_lib
         for n in job["offsets"]:
             recs = []
-            tags = [mode, "byte-offset", "why:truncated" if job["what"] == "cache" else "why:library-partial"]
-            if n < 0:
-                n = len(data) + n
-            if n < 0 or n >= len(data):
-                continue
             restore()
-            os.remove(target)
-            with open(target, "wb") as f:
-                f.write(data[:n])
             if job["what"] == "cache":
+                tags = [mode, "byte-offset", "why:truncated"]
+                if n < 0:
+                    n = len(good) + n
+                if n < 0 or n >= len(good):
+                    continue
+                with open(sb.cache_file, "wb") as f:
+                    f.write(good[:n])
                 sb.cache_stamp = None
                 sb.stamp_cache()
                 results = [("ok", _two_calls(sb, oname, mode, ref))]
+                what = "cache file cut to %d of %d bytes" % (n, len(good))
             else:
-                os.chmod(target, 0o755)
-                results = [mc.isolated(_two_calls, sb, oname, mode, ref)]
+                tags = [mode, "byte-offset", "why:library-partial"]
+                results = [mc.isolated(_lib_trial, sb, oname, mode, ref, n)]
+                what = "link of the first library of a later recompile (other options) killed after %d bytes" % n
             for kind, val in results:
                 if kind == "ok":
                     for r in val:
                         r["tags"] = sorted(set(r["tags"]) | set(tags))
-                        r["detail"] = ("%s file cut to %d of %d bytes: " % (job["what"], n, len(data))) + r["detail"]
+                        r["detail"] = what + ": " + r["detail"]
                         recs.append(r)
                 elif kind == "signal":
                     recs.append({"observable": "process-killed", "tags": sorted(tags), "exception_type": mc.signame(val),
-                                 "detail": "%s file cut to %d of %d bytes: the process calling transfer_model(%s, %s) died with %s" % (
-                                     job["what"], n, len(data), oname, mode, mc.signame(val))})
+                                 "detail": "%s: the process calling transfer_model(%s, %s) died with %s" % (what, oname, mode, mc.signame(val))})
                 else:
                     raise MachineryError("isolated trial ended with %s %s" % (kind, val))
             out.append((n, recs))
     finally:
         sb.close()
     return out
+
+
+def _lib_trial(sb, oname, mode, ref, n):
+    a = mc.api()
+    other = "O2" if oname != "O2" else "O1"
+    ag = mg.FreeAgent(link_cut=(1, n))
+    old = os.getcwd()
+    os.chdir(sb.cwd)
+    try:
+        with mg.Shims(a):
+            res = ag.run(lambda: a.transfer_model(sb.model_folder, "M", sb.options(other, mode)))
+    finally:
+        os.chdir(old)
+    if res[0] != "crashed":
+        raise MachineryError("link step was not reached: %r" % (ag.trace,))
+    gc.collect()
+    return _two_calls(sb, oname, mode, ref)
 
 
 def _two_calls(sb, oname, mode, ref):
@@ -545,7 +554,7 @@ def run(ctx):
             for kx, v in out["stats"].items():
                 totals[kx] = totals.get(kx, 0) + v
             for kx, v in out["drift"].items():
-                ctx.note_drift(sc["graph"].split("_")[0] + ":" + kx, v)
+                ctx.note_drift(sc["graph"] + ":" + kx, v)
             for rec in out["records"]:
                 ctx.violation(rec, {"kind": "schedule", "mode": sc["mode"], "n": sc["n"], "init": sc["init"],
                                     "sequential": sc["sequential"], "acts": sc["acts"][:rec.get("step", len(sc["acts"])) + 1]})
@@ -572,7 +581,7 @@ def run(ctx):
             nj = max(1, min(len(offs), procs() * 4))
             for i in range(nj):
                 jobs.append({"mode": mode, "oname": oname, "what": "cache", "offsets": offs[i::nj]})
-        lib_offs = [0, 1, 64, 4096, 8192, -1] if not thorough else sorted(set([0, 1, 63, 64, 65, -1, -2] + list(range(0, 22000, 173))))
+        lib_offs = [0, 1, 64, 4096, 8192, -1] if not thorough else sorted(set([0, 1, 63, 64, 65, -1, -2] + list(range(0, 32000, 251))))
         nj = max(1, min(len(lib_offs), procs()))
         for i in range(nj):
             jobs.append({"mode": "codegen", "oname": "O1", "what": "lib", "offsets": lib_offs[i::nj]})
